@@ -2,11 +2,23 @@
 import ast, os
 from common import *
 import t1, gen_designs as G, dump_ir as D
+import c05_edge as E
 
 OBLIGATIONS = ['C05.clockLeaf_val', 'C05.foldl_clockLeaf_eq', 'C05.clockDrivers_eq', 'C05.settle_perm',
                'C05.clkCycle_perm_indep', 'C05.leaf_sees_pre_edge', 'C05.unclocked_keeps_state',
                'C05.no_update_before_settle', 'C05.settle_exactly', 'C05.prepared_empty_after_cycle',
-               'C05.clk_settled', 'C05.clk_split', 'C05.clk_eq_singles']
+               'C05.clk_settled', 'C05.clk_split', 'C05.clk_eq_singles',
+               # Props/C05Edge.lean: duplicates in the pending list, shared lines, silent edges, cycle counter, all splittings
+               'C05.foldl_nstep_last', 'C05.lastFor_none_iff', 'C05.settleAll_prepares', 'C05.settleAll_prepares_empty',
+               'C05.settleAll_prepares_st', 'C05.commitModel_eq_spec', 'C05.gen_bidir_prepare_eq', 'C05.gen_bidir_prepare_eq_wire',
+               'Net.gen_wire_prepare_eq', 'Net.prepVal_eq',
+               'C05.edge_commit', 'C05.edge_commit_empty', 'C05.sharedOK_of_disjoint', 'C05.settle_perm_shared',
+               'C05.clkCycle_perm_indep_shared', 'C05.shared_line_conflict_counterexample', 'C05.silent_edge', 'C05.clkCycle_clks',
+               'C05.clk_clks', 'C05.clk_pieces', 'C05.clk_pieces_cons', 'C05.applyOp_clk_pieces', 'C05.clk_pieces_eq',
+               'C05.autoReset_second_edge_silent',
+               # Simulator.clk with stop() requested from inside clock()
+               'C05.clkLoop_eq_iter', 'C05.clkS_eq_clk', 'C05.execCount_le', 'C05.execCount_pos', 'C05.execCount_full',
+               'C05.execCount_stop', 'C05.clkS_no_stop', 'C05.clkS_resume']
 SEQ_CLASSES = ['Reg', 'Sequence', 'SynchronousMemory', 'AutoReset', 'UARTSerializer', 'UARTDeserializer', 'ClockSyncFSM',
                'MsgSequencer', 'CMDRequest', 'CMDResponse', 'Axi2ClkFSM', 'VitisKernelFSM']
 
@@ -56,17 +68,12 @@ def run_variant(plan, inst_order, ops_spec, perm_rng=None, split=False, res=None
     names = {nm: w for nm, w in ((w.name, w) for w in D.all_wires(sysobj))}
     ops = []
     for o in ops_spec:
-        if o[0] == 'poke':
-            ops.append(('poke', names[o[1]], o[2]))
-        elif split and o[1] > 1:
-            ops += [('clk', 1)] * o[1]
-        else:
-            ops.append(o)
+        ops.append(('poke', names[o[1]], o[2]) if o[0] == 'poke' else o)
     trace = []
     prepared_after = []
 
     def snap():
-        trace.append({nm: w.value for nm, w in names.items()})
+        trace.append(dict({nm: w.value for nm, w in names.items()}, **{'<total_clks>': sim.total_clks}))
     if nb is not None:
         nb.add(sysobj, ops, sim=sim, label=label,
                extra_check=lambda d, s: prepared_after.append(len(py4hw.Wire.prepared)))
@@ -76,10 +83,35 @@ def run_variant(plan, inst_order, ops_spec, perm_rng=None, split=False, res=None
         if o[0] == 'poke':
             o[1].put(o[2])
         else:
-            sim.clk(o[1])
-            prepared_after.append(len(py4hw.Wire.prepared))
+            # split: the same n cycles as n single-cycle calls; one snapshot per op in both variants
+            for k_ in ([1] * o[1] if split else [o[1]]):
+                sim.clk(k_)
+                prepared_after.append(len(py4hw.Wire.prepared))
             snap()
     return trace, prepared_after, sim
+
+
+def quiet_plan(r):
+    """a plan in which every always-preparing block (Reg, Sequence, memory) sits under its own gated clock driver whose enable is a
+    1-bit primary input (0 at power-up, poked during the run); AutoReset -- silent at its second edge -- stays ungated.  At many
+    edges no block at all calls prepare()."""
+    plan = G.random_plan(r, r.randint(2, 12), seq_ratio=(1, 2), wmax=r.choice([2, 4, 8]), n_domains=r.choice([0, 1]),
+                         kinds=['And2', 'Or2', 'Not', 'Buf', 'Mux2', 'Constant', 'Bit', 'Reg', 'Sequence', 'SynchronousMemory', 'AutoReset'])
+    gates = []
+    for g in range(r.randint(1, 2)):
+        gates.append(len(plan['inputs']))
+        plan['inputs'].append((f'gate{g}', 1))
+    has_ar = False
+    for nd in plan['nodes']:
+        if nd['kind'] == 'AutoReset':
+            nd['dom'] = 0
+            nd.pop('own_driver', None)
+            has_ar = True
+        elif nd['kind'] in G.SEQ:
+            nd['own_driver'] = ('in', r.choice(gates))
+    if not has_ar or r.chance(1, 2):
+        plan['nodes'].append({'kind': 'AutoReset', 'name': f"n{len(plan['nodes'])}", 'ins': [], 'outw': [1], 'params': {}, 'dom': 0})
+    return plan
 
 
 def reg_rule_variant(plan, inst_order, ops_spec, res, summary):
@@ -124,7 +156,7 @@ def reg_rule_variant(plan, inst_order, ops_spec, res, summary):
                     return
 
 
-def user_seq_stream(res, rng, n):
+def user_seq_stream(res, rng, n, batch=None):
     """user-defined sequential leaves (the property speaks about every sequential block, not only the library's):
     * Moore FSMs that advance an internal state in clock() and decode their outputs in propagate() (no prepare at all on edges where
       nothing else changes), feeding enable-gated register chains and a StreamCapture;
@@ -227,6 +259,7 @@ def user_seq_stream(res, rng, n):
             marks[sim.total_clks] = tuple(w_.get() for w_ in wires)
         return marks, list(cap.data), sim.total_clks, rec.seen, calls
 
+    stop_lines, stop_obs = [], []
     for i in range(n):
         r = rng.fork(i)
         N = r.randint(4, 24)
@@ -256,6 +289,13 @@ def user_seq_stream(res, rng, n):
             continue
         res.count(('userseq', i, str(spec)), nontrivial=True, hist={'user_seq_stops': len(spec['stops'])})
         for sp, (marks, cap, clks, seen, calls) in outs:
+            # model of Simulator.clk with stop() (C05.clkS): the cycle counter after every call of this run
+            after, c_ = [], 0
+            for (_, done, _) in calls:
+                c_ += done
+                after.append(c_)
+            stop_lines.append('stoprun|' + ','.join(map(str, spec['stops'])) + '|0|' + ','.join(str(a) for a, _, _ in calls))
+            stop_obs.append((spec['stops'], [a for a, _, _ in calls], after))
             bad = None
             for (asked, done, fired) in calls:
                 # a call with k >= 1 cycles simulates at least one edge, and all k of them unless stop() was requested DURING that call
@@ -288,6 +328,17 @@ def user_seq_stream(res, rng, n):
                 res.fail('clk(n) differs from n single-cycle clk(1) calls (user-defined sequential leaves, stop() from inside clock())',
                          dict(design='Moore FSM -> enable-gated Reg chain -> StreamCapture, Stopper leaf', spec=spec, splitting=sp, detail=bad))
                 break
+
+    def check_stop_model(out):
+        n_dis = 0
+        for (stops, asked, after), ans in zip(stop_obs, out):
+            if ans is not None and ans.strip() != ','.join(map(str, after)) and n_dis < 3:
+                n_dis += 1
+                res.disagree('stop-model', dict(stop_requested_at_edges=stops, clk_calls=asked, total_clks_after_each_call_python=after,
+                                                lean=ans))
+        res.hist('stop_model_runs', 'compared', len(stop_obs))
+    if batch is not None:
+        batch.add(stop_lines, check_stop_model)
 
 
 def asyncmem_stream(res, rng, n):
@@ -442,21 +493,30 @@ def bidir_prepare_stream(res, rng, n):
 
 
 def main(res, tier, rng, replay):
+    import time
+    t_last = [time.time()]
+
+    def lap(stage):
+        res.hist('wall_s_by_stage', stage, round(time.time() - t_last[0]))
+        t_last[0] = time.time()
     ok, metas, errors, changed = regenerate()
     for e in errors:
         res.broken.append(('translator', 'py2lean', e))
-    res.proof_stage('Py4hwV.Props.C05', OBLIGATIONS)
+    res.proof_stage('Py4hwV.Props.C05Edge', OBLIGATIONS)   # imports Props/C05
+    lap('regenerate+build+audit')
     discipline_scan(res)
     if ok:
         try:
             t1.validate_generated(res, rng.fork('t1'), 30 if tier == 'quick' else 300, classes=SEQ_CLASSES)
         except ToolFailure as e:
             res.broken.append(('correspondence', 'T1', f'generated definitions do not run: {e}'))
+    lap('t1')
     n_designs = 160 if tier == 'quick' else 2500
     nb = D.NetBatch(res, 'net-sim-permuted')
     for i in range(n_designs):
         r = rng.fork(('d', i))
-        plan = G.reg_chain_plan(r) if i % 3 == 2 else G.random_plan(r, r.randint(2, 24), seq_ratio=(1, 2), wmax=r.choice([2, 4, 8, 16]), n_domains=r.choice([0, 1, 2, 3]),
+        quiet = i % 8 == 5
+        plan = quiet_plan(r) if quiet else G.reg_chain_plan(r) if i % 3 == 2 else G.random_plan(r, r.randint(2, 24), seq_ratio=(1, 2), wmax=r.choice([2, 4, 8, 16]), n_domains=r.choice([0, 1, 2, 3]),
                              kinds=['And2', 'Or2', 'Not', 'Buf', 'Mux2', 'Sub', 'AddCarryIn', 'Constant', 'Bit', 'Reg', 'Sequence',
                                     'SynchronousMemory', 'AutoReset', 'ShiftRightConstant'] + (['AsynchronousMemory'] if i % 4 == 1 else []))
         nseq = sum(1 for nd in plan['nodes'] if nd['kind'] in G.SEQ)
@@ -468,6 +528,10 @@ def main(res, tier, rng, replay):
             res.hist('build_errors', str(e)[:50])
             continue
         ops_spec = [(o[0], o[1].name, o[2]) if o[0] == 'poke' else o for o in G.random_ops(r, ins, r.randint(4, 16))]
+        if quiet:
+            # a multi-cycle call from power-up (all gates 0: AutoReset's silent second edge is not the last edge of the call)
+            ops_spec = [('clk', r.randint(3, 6))] + ops_spec
+            res.hist('quiet_plans', 'designs')
         summary = dict(plan=G.plan_summary(plan), inst_order=order, ops=ops_spec)
         try:
             tA, pA, simA = run_variant(plan, order, ops_spec)
@@ -489,10 +553,11 @@ def main(res, tier, rng, replay):
             diff = {k: (tA[step][k], tB[step][k]) for k in tA[step] if tA[step][k] != tB[step][k]}
             res.fail('post-edge state depends on the order in which the simulator visits the sequential blocks',
                      dict(summary, after_clk_number=step, differing_wires=diff))
-        # splitting: compare the final states and the states at matching cycle counts
-        if tA[-1] != tC[-1] or simA.total_clks != simC.total_clks:
-            diff = {k: (tA[-1][k], tC[-1][k]) for k in tA[-1] if tA[-1][k] != tC[-1][k]}
-            res.fail('clk(n) differs from n single-cycle clk(1) calls', dict(summary, differing_wires=diff,
+        # splitting: the states (wires and cycle counter) after EVERY clk op, not only the final one
+        if tA != tC or simA.total_clks != simC.total_clks:
+            step = next((j for j in range(min(len(tA), len(tC))) if tA[j] != tC[j]), min(len(tA), len(tC)) - 1)
+            diff = {k: (tA[step][k], tC[step][k]) for k in tA[step] if tA[step][k] != tC[step][k]}
+            res.fail('clk(n) differs from n single-cycle clk(1) calls', dict(summary, after_clk_number=step, differing_wires=diff,
                                                                              total_clks=(simA.total_clks, simC.total_clks)))
         try:
             reg_rule_variant(plan, order, ops_spec, res, summary)
@@ -510,10 +575,19 @@ def main(res, tier, rng, replay):
         nb.run()
     except ToolFailure as e:
         res.broken.append(('correspondence', 'net-sim-permuted', str(e)[:300]))
-    user_seq_stream(res, rng.fork('userseq'), 60 if tier == 'quick' else 1500)
+    lap('netlist designs + model session')
+    batch = E.Batch(res)
+    user_seq_stream(res, rng.fork('userseq'), 60 if tier == 'quick' else 1500, batch)
     asyncmem_stream(res, rng.fork('asyncmem'), 60 if tier == 'quick' else 1500)
     memory_stream(res, rng.fork('mem'), 80 if tier == 'quick' else 2000)
     bidir_prepare_stream(res, rng.fork('bidirprep'), 40 if tier == 'quick' else 800)
+    lap('userseq/asyncmem/memory/bidir streams')
+    E.commit_stream(res, rng.fork('commit'), 150 if tier == 'quick' else 4000, batch)
+    E.dup_prepare_stream(res, rng.fork('dupprep'), 80 if tier == 'quick' else 2000, batch)
+    batch.run()
+    lap('commit + duplicate-prepare streams + driver session')
+    E.quiet_stream(res, rng.fork('quiet'), 60 if tier == 'quick' else 1500)
+    lap('quiet stream')
     res.cov['rule'] = ('seeded random netlists with register chains/feedback, memories, sequences, AutoReset; each built 4 times from the same '
                        'plan: reference, externally permuted clockables+driver order, clk(n) split into clk(1), and a permuted run compared '
                        'wire-for-wire with the Lean model; non-trivial = at least 2 sequential leaves; oracle on the implementation: permuted == '
